@@ -365,8 +365,8 @@ pub fn gen_op(rng: &mut Rng, uni: &Universe, hist: &mut History, canaries: &[u64
             let a = op.page & !0xfff;
             let (s, e) = match rng.below(8) {
                 0 => (a, a),
-                1 => (a & !((1 << 21) - 1), (a & !((1 << 21) - 1)) + (1 << 21) - 4096),
-                2 => (a & !((1 << 30) - 1), (a & !((1 << 30) - 1)) + (1 << 30) - 4096),
+                1 => (a & !((1 << 21) - 1), (a & !((1 << 21) - 1)).wrapping_add((1 << 21) - 4096)),
+                2 => (a & !((1 << 30) - 1), (a & !((1 << 30) - 1)).wrapping_add((1 << 30) - 4096)),
                 3 => (a & !((1 << 39) - 1), sign_extend((a & !((1u64 << 39) - 1)).wrapping_add((1 << 39) - 4096))),
                 4 => (0, 0xffff_ffff_ffff_f000),
                 5 => (a, 0xffff_ffff_ffff_f000),
@@ -547,5 +547,90 @@ pub fn run_histories(out: &mut Out, rng: &mut Rng, tier: Tier, mask: u64) {
             out.input_class(&format!("result:op{}:sz{}:{}", op.opcode, op.szc, rc));
             out.emit("mh_op", &args, &obs, true);
         }
+    }
+}
+
+/// Replay hand-written histories (`corpus/<id>/*.ops`): minimised past failures and witnesses of
+/// the defects recorded in KNOWN_FINDINGS.txt. Format, one item per line:
+///   begin <kind: 0 mapped | 1 offset>
+///   op <opcode> <szcode> <page> <frame> <flags> <pflags> <s1> <s2> <s3>   (allocator answers as pool
+///      slot numbers, 0 = None; numbers may be written in hex with 0x)
+pub fn run_corpus(out: &mut Out, path: &str, mask: u64) {
+    let text = match std::fs::read_to_string(path) {
+        Ok(t) => t,
+        Err(_) => return,
+    };
+    let num = |t: &str| -> u64 {
+        if let Some(h) = t.strip_prefix("0x") {
+            u64::from_str_radix(&h.replace('_', ""), 16).unwrap()
+        } else {
+            t.replace('_', "").parse().unwrap()
+        }
+    };
+    let mut rng = Rng::new(7);
+    let npool = 64usize;
+    let base_phys = 0x4000_0000u64;
+    let phys = pool_layout(&mut rng, npool, Some(base_phys));
+    let seed = 12345u64;
+    let mut pool: Option<Pool> = None;
+    let mut kind = 0u64;
+    let mut hist = History { pages: Vec::new() };
+    for line in text.lines() {
+        let line = line.split('#').next().unwrap().trim();
+        if line.is_empty() {
+            continue;
+        }
+        let t: Vec<&str> = line.split_whitespace().collect();
+        match t[0] {
+            "begin" => {
+                kind = num(t[1]);
+                let mut p = Pool::new(phys.clone(), seed);
+                p.zero_frame(0);
+                pool = Some(p);
+                hist = History { pages: Vec::new() };
+                out.emit("mh_begin", &[mask, kind, 0, phys[0], seed, 0], "-", false);
+            }
+            "op" => {
+                let pool = pool.as_mut().expect("op before begin");
+                let op = Op { opcode: num(t[1]), szc: num(t[2]), page: num(t[3]), frame: num(t[4]), flags: num(t[5]), pflags: num(t[6]) };
+                let answers: Vec<Option<u64>> =
+                    (7..10).map(|k| t.get(k).map(|x| num(x)).filter(|&s| s != 0).map(|s| phys[s as usize])).collect();
+                hist.pages.push((if op.opcode == 2 { op.frame } else { op.page }, op.szc));
+                let probes = gen_probes(&mut rng, &op, &hist);
+                let mut alloc = ScriptAlloc { answers: answers.clone(), used: 0 };
+                let p4ref: &mut PageTable = unsafe { &mut *pool.frame_ptr(0) };
+                let poolptr: *mut Pool = pool;
+                let mut diff = || unsafe { (*poolptr).diff() };
+                let obs = if kind == 0 {
+                    let mapping = PoolMapping { base: pool.base, slot_of: pool.slot_of.clone(), foreign_slot: npool - 1 };
+                    let mut m = unsafe { MappedPageTable::new(p4ref, mapping) };
+                    observe(&mut m, &op, &mut alloc, &probes, &mut diff)
+                } else {
+                    let offset = VirtAddr::new(pool.base as u64 - base_phys);
+                    let mut m = unsafe { OffsetPageTable::new(p4ref, offset) };
+                    observe(&mut m, &op, &mut alloc, &probes, &mut diff)
+                };
+                let mut args = vec![op.opcode, op.szc, op.page, op.frame, op.flags, op.pflags, 3];
+                for a in &answers {
+                    args.push(a.unwrap_or(0));
+                }
+                args.push(probes.len() as u64);
+                args.extend_from_slice(&probes);
+                out.emit("mh_op", &args, &obs, true);
+            }
+            _ => panic!("bad corpus line: {}", line),
+        }
+    }
+}
+
+/// All corpus files of a property directory, in name order.
+pub fn run_corpus_dir(out: &mut Out, dir: &str, mask: u64) {
+    let mut files: Vec<String> = match std::fs::read_dir(dir) {
+        Ok(rd) => rd.filter_map(|e| e.ok()).map(|e| e.path().to_string_lossy().to_string()).filter(|p| p.ends_with(".ops")).collect(),
+        Err(_) => return,
+    };
+    files.sort();
+    for f in files {
+        run_corpus(out, &f, mask);
     }
 }
